@@ -182,14 +182,21 @@ class C04(Check):
     def check_reject(self, ctx):
         for eol in (b"\n", b"\r\n"):
             for fnl in (True, False):
-                for s1, s2 in itertools.product([b"A", b"ACGT", b"nn"], repeat=2):
-                    for buf in (1, 100):
-                        data, _ = fm.make_fasta([("dup", s1, 2), ("x", b"AC", 2), ("dup", s2, 2)], eol, fnl)
-                        case = ["reject-dup", data.decode(), buf]
-                        ctx.cur = case
-                        ctx.evaluations += 1
-                        ctx.nontrivial += 1
-                        self.reject_one(data, buf, case, "duplicate-not-rejected", ctx)
+                # every name sequence of 2..4 records over {a,b,c} that repeats a name
+                # (adjacent, separated, first/last, triple) x three sequences
+                for k in (2, 3, 4):
+                    for names in itertools.product("abc", repeat=k):
+                        if len(set(names)) == k:
+                            continue
+                        for sq in (b"A", b"ACGT", b"nn"):
+                            for buf in (1, 100):
+                                recs = [(n, sq if i % 2 == 0 else b"AC", 2) for i, n in enumerate(names)]
+                                data, _ = fm.make_fasta(recs, eol, fnl)
+                                case = ["reject-dup", data.decode(), buf]
+                                ctx.cur = case
+                                ctx.evaluations += 1
+                                ctx.nontrivial += 1
+                                self.reject_one(data, buf, case, "duplicate-not-rejected", ctx)
                 for data in (b"", b"\n", b"ACGT" + eol, b"ACGT" + eol + b"AC" + eol):
                     for buf in (1, 100):
                         case = ["reject-empty", data.decode(), buf]
